@@ -91,6 +91,7 @@ def gen_case(rng):
     starts = [100 * s for s in rng.sample(range(1, 14), k)]
     special = rng.random()
     kind = 'plain'
+    force_T = {}
     F = rng.choice([2, 4])
     dts = [2.0] * k
     ants = [('m000', 'm001')] * k
@@ -115,6 +116,8 @@ def gen_case(rng):
         # fraction of a dump); the order is still the one of the start times, the timestamps of the whole are not monotonic
         kind = 'overlap'
         starts[1] = starts[0] + rng.choice([1, 2, 3, 4, 5])
+        if rng.random() < 0.5:
+            force_T = {0: rng.randint(6, 7), 1: rng.randint(2, 3)}     # the second part lies INSIDE the first: it ends earlier
     elif k >= 2 and special < 0.11:
         kind = 'period'
         # clearly different, or different only beyond the 6 significant digits the error message prints
@@ -160,6 +163,7 @@ def gen_case(rng):
     parts = []
     for i in range(k):
         T = rng.randint(2, 7)
+        T = force_T.get(i, T)
         sens = {}
         if fmts[i] == 'v1':
             present = {s: [False] * k for s in SHORTS}      # the v1 writer has no such sensors
